@@ -82,6 +82,17 @@ int read_hex(const char *filename, Memory *memory)
     byte_count = get_hex(in,2);
     address = get_hex(in,4);
     record_type = get_hex(in,2);
+
+    // get_hex() returns a negative number for anything but hex digits.
+    if (byte_count < 0 || address < 0 || record_type < 0)
+    {
+      printf("read_hex: Illegal record on line %d!\n", line);
+      fclose(in);
+      in = NULL;
+      start_address = -4;
+      break;
+    }
+
     checksum_calc = byte_count + (address&0xff) + (address>>8) + record_type;
 
 #ifdef DEBUG1
